@@ -1,7 +1,7 @@
 """C12: real field actions in amaranth.sim vs the Lean model `action`, plus the documented
 closed forms evaluated on the real trace."""
 from . import lib, simutil
-from amaranth import Module, unsigned, signed
+from amaranth import Shape, Module, unsigned, signed
 from amaranth.hdl import Value
 from amaranth.lib import enum as aenum
 from amaranth.sim import Simulator
@@ -114,6 +114,16 @@ def run_impl(case):
                 busr = (ctx.get(reg.element.r_data) >> off) & mask
                 if busr != portr:
                     fails.append(("C12", f"{kind} width {w} cycle {t}: a bus read of the field returns {busr}, its port.r_data is {portr}", t))
+            if inreg:
+                # … and the same for its siblings: no field's data may leak into another field's bit range
+                er, o2 = ctx.get(reg.element.r_data), 0
+                for p2, f2 in reg:
+                    w2 = Shape.cast(f2.port.shape).width
+                    if f2 is not dut and f2.port.access.readable():
+                        if (er >> o2) & ((1 << w2) - 1) != simutil.getv(ctx, f2.port.r_data):
+                            fails.append(("C12", f"{kind} width {w} cycle {t}: a bus read of sibling field {p2} returns "
+                                                 f"{(er >> o2) & ((1 << w2) - 1)}, its data is {simutil.getv(ctx, f2.port.r_data)}", t))
+                    o2 += w2
             if kind == "R":
                 d, s = 0, ctx.get(dut.r_stb)
             elif kind == "W":
